@@ -5,6 +5,8 @@
 package main
 
 import (
+	"sort"
+	"bytes"
 	"fmt"
 	"reflect"
 	"strings"
@@ -195,7 +197,7 @@ func run(r *hk.Run) {
 					args = append(args, av)
 				case reflect.Slice:
 					pb = r.Rng.Bytes(r.Rng.Intn(noct + 4))
-					args = append(args, reflect.ValueOf(append([]byte{}, pb...)))
+					args = append(args, reflect.ValueOf(hk.Exact(pb)))
 				default:
 					continue
 				}
@@ -259,7 +261,7 @@ func run(r *hk.Run) {
 				}
 			}
 			if a.Set && len(args) == 1 && args[0].Kind() >= reflect.Uint8 && args[0].Kind() <= reflect.Uint64 {
-				want := append([]byte{}, oct...)
+				want := hk.Exact(oct)
 				for j := 0; j < a.Len; j++ {
 					o, b := fpos(a.R0, a.SBit, a.Len, j)
 					if o < len(want) {
@@ -275,5 +277,122 @@ func run(r *hk.Run) {
 			}
 		}
 	}
+	// ---- copy-style accessors (SetX([]uint8) / SetX([n]uint8)): what was set is read back.
+	// For every such setter with a getter of the same name: elements at and above the documented size,
+	// arguments shorter than, equal to and longer than the room; GetX() after SetX(p) must start with
+	// p as far as it fits, and the octets before the field must be untouched.
+	copyTrials := 0
+	// the accessors are found by reflection on the element types (not through the translated table, which
+	// drops an accessor whose body it cannot classify)
+	typeNames := make([]string, 0, len(genTypes))
+	for n := range genTypes {
+		typeNames = append(typeNames, n)
+	}
+	sort.Strings(typeNames)
+	for _, tn := range typeNames {
+		mk := genTypes[tn]
+		probe := inspect(mk())
+		pt := probe.v.Type()
+		for mi := 0; mi < pt.NumMethod(); mi++ {
+			mname := pt.Method(mi).Name
+			if !strings.HasPrefix(mname, "Set") || mname == "SetLen" {
+				continue
+			}
+			ms := probe.v.Method(mi)
+			mg := probe.v.MethodByName("Get" + mname[3:])
+			if !mg.IsValid() || ms.Type().NumIn() != 1 || mg.Type().NumIn() != 0 || mg.Type().NumOut() != 1 {
+				continue
+			}
+			at := ms.Type().In(0)
+			if (at.Kind() != reflect.Slice && at.Kind() != reflect.Array) || at.Elem().Kind() != reflect.Uint8 {
+				continue
+			}
+			sizes := []int{1}
+			if probe.hasOct && !probe.scalar {
+				sizes = []int{probe.arrN}
+			}
+			if probe.isBuf {
+				sizes = nil
+				for n := 1; n <= 24; n++ {
+					sizes = append(sizes, n)
+				}
+				sizes = append(sizes, 32, 40, 64)
+			}
+			for _, noct := range sizes {
+				for trial := 0; trial < 2; trial++ {
+					e := inspect(mk())
+					oct := r.Rng.Bytes(noct)
+					ln := uint16(noct)
+					if e.lenW == 1 {
+						ln &= 0xff
+					}
+					if e.lenW == 0 {
+						ln = 0
+					}
+					e.set(0, ln, oct)
+					m := e.v.MethodByName(mname)
+					g := e.v.MethodByName("Get" + mname[3:])
+					// how much the field holds: length of what the getter returns on this element
+					var outs0 []reflect.Value
+					if p0, _ := hk.Catch(func() { outs0 = g.Call(nil) }); p0 || len(outs0) != 1 {
+						continue
+					}
+					room := outs0[0].Len()
+					var arg reflect.Value
+					var pb []byte
+					if at.Kind() == reflect.Array {
+						pb = r.Rng.Bytes(at.Len())
+						arg = reflect.New(at).Elem()
+						for i := range pb {
+							arg.Index(i).SetUint(uint64(pb[i]))
+						}
+					} else {
+						pb = r.Rng.Bytes(room + trial*2) // exactly the room; two more than the room
+						if len(pb) == 0 {
+							continue
+						}
+						arg = reflect.ValueOf(hk.Exact(pb))
+					}
+					for i := range pb {
+						pb[i] |= 1
+						if at.Kind() == reflect.Array {
+							arg.Index(i).SetUint(uint64(pb[i]))
+						}
+					}
+					if at.Kind() == reflect.Slice {
+						arg = reflect.ValueOf(hk.Exact(pb))
+					}
+					var outs []reflect.Value
+					p1, _ := hk.Catch(func() { m.Call([]reflect.Value{arg}) })
+					p2, _ := hk.Catch(func() { outs = g.Call(nil) })
+					copyTrials++
+					if p1 || p2 || len(outs) != 1 {
+						continue
+					}
+					var got []byte
+					switch outs[0].Kind() {
+					case reflect.Slice:
+						got = outs[0].Bytes()
+					case reflect.Array:
+						for i := 0; i < outs[0].Len(); i++ {
+							got = append(got, byte(outs[0].Index(i).Uint()))
+						}
+					default:
+						continue
+					}
+					n := len(pb)
+					if len(got) < n {
+						n = len(got)
+					}
+					if !bytes.Equal(got[:n], pb[:n]) {
+						r.Fail(hk.Failure{Site: "nasType." + tn + "." + mname, Class: "set-then-get",
+							Input:  fmt.Sprintf("%s.%s on %d octets %s, argument %s", tn, mname, noct, hk.Hex(oct), hk.Hex(pb)),
+							Detail: fmt.Sprintf("Get%s() = %s does not start with what was set", mname[3:], hk.Hex(got))})
+					}
+				}
+			}
+		}
+	}
+	r.Extra["copy_accessor_trials"] = copyTrials
 	r.Extra["accessors"] = len(genAccs)
 }
